@@ -83,6 +83,7 @@ def run(ctx):
             cases.append(c)
     impl, model = kernel.run_both(ctx, cases)
     oneshot = {}
+    single_file = set()
     for c in cases:
         i, m = impl[c["id"]], model[c["id"]]
         io, mo = i.get("out") or {}, m.get("out") or {}
@@ -92,6 +93,12 @@ def run(ctx):
         if c["op"] == "kernel.lint":
             kernel.compare(ctx, c, i, m)
             oneshot[c["w"]] = [v for v in (io.get("violations") or []) if v[5]]
+            # the property quantifies over multi-file workspaces: a run that lints fewer than two files (the others
+            # are excluded by ignore patterns) never evaluates aggregate rules by design (linter.go: aggregates are
+            # used "else if len(input.FileNames) > 1"), so there is no one-shot verdict to compare with
+            if ((io.get("summary") or {}).get("filesScanned") or 0) < 2:
+                single_file.add(c["w"])
+                ctx.count("one-shot lints < 2 files (outside the quantifier)")
             ctx.seen(c, ("one", c["w"]) if oneshot[c["w"]] else None)
             continue
         ctx.count("parts=%d" % len(c["parts"]))
@@ -102,7 +109,7 @@ def run(ctx):
         two = io.get("violations") or []
         one = oneshot.get(c["w"])
         ctx.seen(c, ("two", c["w"], str(c["parts"]), str(c["mergeOrder"])) if one else None)
-        if one is None:
+        if one is None or c["w"] in single_file:
             continue
         if sorted(map(str, two)) != sorted(map(str, one)):
             known = None
